@@ -8,6 +8,6 @@ require (
 	gopkg.in/yaml.v3 v3.0.1
 )
 
-require github.com/kballard/go-shellquote v0.0.0-20180428030007-95032a82bc51 // indirect
+require github.com/kballard/go-shellquote v0.0.0-20180428030007-95032a82bc51
 
 replace github.com/elastic/go-libaudit/v2 => /repo
